@@ -4,6 +4,8 @@ import (
 	"bytes"
 	"context"
 	"fmt"
+	"github.com/brimdata/super/zio/arrowio"
+	"github.com/brimdata/super/zio/parquetio"
 	"io"
 	"strings"
 
@@ -95,9 +97,9 @@ func b2i(b bool) int {
 }
 
 var formatKind = map[string]string{"zng": "KZng", "zson": "KZson", "zjson": "KZjson", "json": "KJson", "csv": "KCsv", "tsv": "KCsv",
-	"zeek": "KZeek", "table": "KTable", "text": "KText", "vng": "KVng", "lake": "KLake"}
+	"zeek": "KZeek", "table": "KTable", "text": "KText", "vng": "KVng", "lake": "KLake", "arrows": "", "parquet": ""}
 var formatClass = map[string]string{"zng": "any", "zson": "any", "zjson": "any", "json": "anynu", "csv": "csv", "tsv": "csv",
-	"zeek": "multi", "table": "multi", "text": "multi", "vng": "any", "lake": "lake"}
+	"zeek": "multi", "table": "multi", "text": "multi", "vng": "any", "lake": "lake", "arrows": "uniform", "parquet": "uniform"}
 var losslessFormat = map[string]bool{"zng": true, "zson": true, "zjson": true, "vng": true}
 
 func outURI(name string) *storage.URI {
@@ -264,6 +266,19 @@ func readBack(format string, b []byte) (out []string, err error) {
 			r = vr
 		case "json":
 			r = jsonio.NewReader(zctx, bytes.NewReader(b))
+		case "arrows":
+			ar, err := arrowio.NewReader(zctx, bytes.NewReader(b))
+			if err != nil {
+				return err
+			}
+			defer ar.Close()
+			r = ar
+		case "parquet":
+			pr, err := parquetio.NewReader(zctx, bytes.NewReader(b))
+			if err != nil {
+				return err
+			}
+			r = pr
 		default:
 			return fmt.Errorf("no reader for %s", format)
 		}
